@@ -651,6 +651,21 @@ pub fn make_est_times<N: AsRef<[Link]>>(
 
             // If finished, add destination node to final processing (all links should be clear)
             if sim.train_sim.is_finished() {
+                // The dispatcher can only route the train over links that have an arrive event, so the
+                // front of the train must have reached its destination link. It has not if the train
+                // came to rest before the entry of a destination link that is shorter than the distance
+                // by which the train stops short of the end of its path.
+                let link_points = sim.train_sim.link_points();
+                let link_point_dest = &link_points[link_points.len() - 2];
+                ensure!(
+                    link_point_dest.offset <= sim.train_sim.state.offset,
+                    "Train {} stops at offset {:?}, before the entry of its destination link {} at offset {:?} (end of path at {:?}): the destination link is too short for an arrival to be estimated!",
+                    sim.train_sim.train_id,
+                    sim.train_sim.state.offset,
+                    link_point_dest.link_idx.idx(),
+                    link_point_dest.offset,
+                    sim.train_sim.offset_end()
+                );
                 est_idxs_end.push((est_times.len() - 1).try_into().unwrap());
                 if consist_out.is_none() {
                     consist_out = Some(sim.train_sim.loco_con);
